@@ -96,7 +96,7 @@ func (ex *Exec) guardViolation(st *State, fr *Frame, field, msg string) {
 // a locking discipline; orderings established by other means (channels, WaitGroup, Once) are not seen, which is why
 // only objects whose documented discipline is "fields under the mutex" are watched.
 func (ex *Exec) eraser(st *State, fr *Frame, p PtrVal, write bool, w watchDecl) {
-	if len(p.Path) == 0 {
+	if len(p.Path) == 0 || w.skip[p.Path[0]] {
 		return
 	}
 	loc := "er:" + p.Key()
